@@ -309,7 +309,7 @@ func runAll(ld *Loaded, sf *SpecFile, opt *Options, only string) []*FuncResult {
 				}
 			}
 			if nCheck > 0 && len(e.errs) == 0 {
-				fr.Runs = solveScript(smtDir, j.key, e.sc, opt.perQuery, time.Duration(opt.perQuery)*time.Millisecond*time.Duration(nCheck+5)+60*time.Second, opt.solvers)
+				fr.Runs = solveScript(smtDir, j.key, e.sc, opt.perQuery, time.Duration(opt.perQuery)*time.Millisecond*time.Duration(nCheck+5)+60*time.Second, opt.solvers, e.obls)
 				fr.Disagree = combine(e.obls, fr.Runs)
 				// second pass: models for failed obligations
 				var failed []int
@@ -352,7 +352,7 @@ func getModels(ld *Loaded, sf *SpecFile, fn *ssa.Function, fs *FuncSpec, lm *Lem
 		e = verifyRoot(ld, sf, fn, fs, opt.prop)
 	}
 	modelIDs = nil
-	runs := solveScript(dir, "model_"+e.rootNameOr("lemma"), e.sc, opt.perQuery, 120*time.Second, []string{"z3-5", "z3-4"})
+	runs := solveScript(dir, "model_"+e.rootNameOr("lemma"), e.sc, opt.perQuery, 120*time.Second, []string{"z3-5", "z3-4"}, nil)
 	for _, r := range runs {
 		for id, m := range r.Models {
 			if id < len(obls) && obls[id].Model == "" && r.Results[id] == "sat" {
@@ -505,6 +505,9 @@ func printResult(r *FuncResult, verbose bool) {
 		}
 	}
 	for _, run := range r.Runs {
+		if verbose {
+			fmt.Printf("   solver %s: %d answers in %.1fs\n", run.Name, len(run.Results), run.Total)
+		}
 		if run.Err != "" {
 			fmt.Printf("   solver %s: %s\n", run.Name, truncStr(run.Err, 300))
 		}
@@ -567,7 +570,7 @@ func checkProperty(opt *Options, start time.Time) int {
 	perBackend := map[string]map[string]float64{}
 	var funcs []string
 	notes := map[string]bool{}
-	covers, coversOK := 0, 0
+	covers, coversOK, coversUnk := 0, 0, 0
 	type slow struct {
 		n string
 		t float64
@@ -595,6 +598,8 @@ func checkProperty(opt *Options, start time.Time) int {
 				covers++
 				if o.Result == "sat" {
 					coversOK++
+				} else if o.Result == "unknown" || o.Result == "timeout" {
+					coversUnk++
 				} else if o.Result == "unsat" {
 					errors = append(errors, "vacuity: "+o.Name+" is unreachable (contradictory precondition / antecedent)")
 				}
@@ -700,7 +705,7 @@ func checkProperty(opt *Options, start time.Time) int {
 			"functions_under_contract": funcs,
 			"per_backend":              perBackend,
 			"slowest":                  slowest,
-			"vacuity_covers":           map[string]int{"checked": covers, "reachable": coversOK},
+			"vacuity_covers":           map[string]int{"checked": covers, "reachable_sat": coversOK, "not_refuted_unknown": coversUnk},
 			"known_findings_hit":       knownHit,
 			"undischarged":             failedNames(failed),
 			"engine_errors":            errors,
